@@ -33,6 +33,8 @@ fn yaml(c: &C16Case) -> String
         4 => (),
         5 => y.push_str("source_dir: ./nope\n"),
         6 => y.push_str("source_dir: ./Breadlog.yaml\n"),
+        9 => y.push_str("source_dir: ./src/a.rs\n"),
+        10 => y.push_str("source_dir: ./link_to_a.rs\n"),
         _ => y.push_str("source_dir: ./src\n"),
     }
     if let Some(u) = c.use_cache
@@ -118,6 +120,12 @@ fn build(c: &C16Case, lock_kind: u8) -> Built
     {
         tree.insert("src/sub/c.rs".into(), Node::File(b"fn c() {\n    info!(\"deep\");\n}\n".to_vec()));
     }
+    if c.error_point == 10
+    {
+        tree.insert("link_to_a.rs".into(), Node::Symlink("src/a.rs".into()));
+    }
+    // an ordinary Rust project around it
+    tree.insert("Cargo.toml".into(), Node::File(b"[package]\nname = \"demo\"\nversion = \"0.1.0\"\nedition = \"2021\"\n".to_vec()));
     match c.error_point
     {
         1 => (),
@@ -436,7 +444,7 @@ pub fn matrix(reps: u16) -> Vec<C16Case>
                 }
             }
         }
-        for error_point in 1..=8u8
+        for error_point in 1..=10u8
         {
             for check_mode in [false, true]
             {
@@ -470,7 +478,7 @@ pub fn run(env: &Env, rec: &Recorder) -> (String, Vec<&'static str>)
     enumerate(env, rec, "matrix", m, &check);
     rec.set_exhaustive(true);
     (
-        "the complete matrix use_cache {omitted,true,false} x structured {omitted,true,false} x extensions {omitted,[rs],[rsx],[rs, empty string]} x lock {absent, valid ahead of the tree, corrupt text, empty, wrong type, negative, > u32} x mode {edit,check} x tree {references missing, none missing}, plus 8 error points (config missing, invalid YAML, wrong shape, source_dir key absent, source dir missing, source dir a file, nothing in scope, extension list holding only the empty string over a tree of extension-less, hidden and .rs files); every tree holds an extension-less file and a dot file with statements lacking references, which never are in scope x mode x lock x use_cache; small trees vary with the point (thorough: 20 variants per point). Oracle (reference model of the guide): disabled cache => lock untouched and IDs equal to the lock-absent baseline; omitted == true: inserting edit writes a parsable lock ahead of its IDs and a later run (after deleting the highest statement and adding one; for half of the points also after the configuration file got a newer timestamp than the lock) starts from the lock; unparsable lock => IDs equal to the lock-absent baseline and lock rewritten; structured/extension defaults; every error point => exit != 0 and strict snapshot equality. Non-trivial = any point other than all-explicit defaults with the lock absent".to_string(),
+        "the complete matrix use_cache {omitted,true,false} x structured {omitted,true,false} x extensions {omitted,[rs],[rsx],[rs, empty string]} x lock {absent, valid ahead of the tree, corrupt text, empty, wrong type, negative, > u32} x mode {edit,check} x tree {references missing, none missing}, plus 10 error points (source_dir naming a regular .rs file that lacks references, or a symbolic link to it; config missing, invalid YAML, wrong shape, source_dir key absent, source dir missing, source dir a file, nothing in scope, extension list holding only the empty string over a tree of extension-less, hidden and .rs files); every tree holds an extension-less file and a dot file with statements lacking references, which never are in scope x mode x lock x use_cache; small trees vary with the point (thorough: 20 variants per point). Oracle (reference model of the guide): disabled cache => lock untouched and IDs equal to the lock-absent baseline; omitted == true: inserting edit writes a parsable lock ahead of its IDs and a later run (after deleting the highest statement and adding one; for half of the points also after the configuration file got a newer timestamp than the lock) starts from the lock; unparsable lock => IDs equal to the lock-absent baseline and lock rewritten; structured/extension defaults; every error point => exit != 0 and strict snapshot equality. Non-trivial = any point other than all-explicit defaults with the lock absent".to_string(),
         vec!["only unambiguous invalid configurations are asserted; unknown extra keys and an omitted rust stanza are not asserted either way", "exhaustive=true: every point of the stated matrix was visited"],
     )
 }
